@@ -173,6 +173,14 @@ def cases(tier, seed):
                 c = dict(b, after={"spec": a["spec"], "cfg": a["cfg"]})
                 c["label"] = b["label"] + " after " + a["label"]
                 yield c
+    # the initial state given through the public amplitude dictionary, with the basis spelled ("r","g") and ["g","r"]
+    for shape in ("pair", "bent3"):
+        for init in ("product", "seeded"):
+            for via in ("amplitudes_rg", "amplitudes_gr"):
+                c = _mk(shape, "twophase", 0.7, 0, 0, "mock", False, 10, [0.0, 0.37, 1.0], 1e-10, init, seed)
+                c["cfg"]["init_via"] = via
+                c["label"] += "/" + via
+                yield c
     if tier == "quick":
         # one loose-tolerance run with an SLM mask: exercises the recorded Krylov-accuracy finding in the quick tier as well
         yield _mk("pair", "blackman", 0.0, 0, 1, "mock", False, 3, [1.0], 1e-6, None, seed)
